@@ -202,7 +202,8 @@ class ThreadSim:
     def _shared_lines(self, frame) -> t.FrozenSet[int]:
         """Lines of the frame's code that WRITE module-level state or read a module-level name this function also rebinds: a
         STORE_GLOBAL / DELETE_GLOBAL, a LOAD_GLOBAL of a name rebound in this function (check-then-act on a memo), or a line that
-        loads a module-level mutable container (dict, list, set, bytearray) and stores into it / calls a mutating method on it.
+        loads a module-level mutable container (dict, list, set, bytearray) and stores into it / calls a mutating method on it,
+        or a line that touches a module-level byte buffer at all.
         Plain reads of module-level registries are not included (they are everywhere and never race on their own)."""
         code = frame.f_code
         got = self._shared_cache.get(code)
@@ -224,6 +225,10 @@ class ThreadSim:
                 ops = {i.opname for i in group}
                 loads = [i.argval for i in group if i.opname == "LOAD_GLOBAL"]
                 if ops & {"STORE_GLOBAL", "DELETE_GLOBAL"} or any(n in rebound for n in loads):
+                    lines.add(ln)
+                elif any(isinstance(g.get(n), (bytearray, memoryview)) for n in loads):
+                    # a module-level byte buffer is a scratch area whatever is done with it on this line (filled through a third
+                    # party such as struct.pack_into, or read back): every touch counts
                     lines.add(ln)
                 elif any(isinstance(g.get(n), (dict, list, set, bytearray)) for n in loads):
                     attrs = {i.argval for i in group if i.opname in ("LOAD_ATTR", "LOAD_METHOD")}
